@@ -108,6 +108,10 @@ class Gen:
         kids = []
         for i in range(n):
             cpos = "%s_%d" % (pos, i)
+            if level == 1 and i == 1 and not is_sym_scalar(kids[0][0]) and ctx.flag("alias_" + cpos):
+                # a YAML anchor/alias delivers the very same object at two positions
+                kids.append(kids[0])
+                continue
             ck = ctx.choice("child_" + cpos, 3 if level < self.depth else 2)  # scalar, typed leaf, container
             if ck == 2:
                 kids.append(self.container(cpos, level + 1))
@@ -128,6 +132,19 @@ class Gen:
             c2, s2 = self.typed_node(pos + "_arg1", [], False)
             args = ([v, c2], Spec("list", items=[Spec("scalar", value=v), s2]))
         return self.typed_node(pos, list(zip(keys, kids)), allow_resolution_failure=False, args=args)
+
+
+def is_sym_scalar(x):
+    return not isinstance(x, (list, dict))
+
+
+def snapshot(x):
+    """identity-level picture of a configuration structure (to show the input is left alone)"""
+    if isinstance(x, list):
+        return ("list", id(x), [snapshot(v) for v in x])
+    if isinstance(x, dict):
+        return ("dict", id(x), [(k, snapshot(v)) for k, v in x.items()])
+    return ("leaf", id(x))
 
 
 class Failure(Exception):
@@ -190,12 +207,14 @@ def tree(ctx, depth, inner_max, fail_budget):
     except Failure as f:
         expected, exp_fail = None, f.where
     del F.LOG[:]
+    before = snapshot(cfg)
     try:
         got = Translator().translate_hierarchy(cfg)
         err = None
     except ConfigurationError as e:
         got, err = None, e
     ctx.reach()
+    ctx.require(snapshot(cfg) == before, "the configuration handed in is left unchanged")
     log = list(F.LOG)
     ctx.observe("calls", [n for n, _, _ in log])
     ctx.observe("where", None if err is None else err.where)
